@@ -7,6 +7,7 @@ package mail
 import (
 	"bytes"
 	"encoding/base64"
+	"errors"
 	"fmt"
 	"io"
 	"mime"
@@ -516,6 +517,13 @@ func (mw *msgWriter) writeBody(writeFunc func(io.Writer) (int64, error), encodin
 	}
 	if mw.depth > 0 {
 		writer = mw.partWriter
+	}
+	if writer == nil {
+		// The part could not be created, mw.err holds the reason. There is nothing to write to.
+		if mw.err == nil {
+			mw.err = errors.New("bodyWriter: no writer for the message part available")
+		}
+		return
 	}
 	writeBuffer := bytes.Buffer{}
 	lineBreaker := base64LineBreaker{}
